@@ -12,7 +12,12 @@
     the two running hashes as the bytes fed so far ([None] = no context), the dictionary,
     [comp.started] and [error_state] make up the state.  Reads are fault free: a request
     returns min(requested, available) bytes (I/O faults belong to property C12).
-    Not modelled: allocation failure, zstd context creation failure. *)
+    Not modelled: allocation failure, zstd context creation failure.
+    The per-chunk [valid] mark (zckChunk.valid) is NOT part of the state: nothing on the read
+    path reads it (validate_chunk only writes it), so the calls that set it without reading
+    through this path - zck_find_matching_chunks, zck_find_valid_chunks, zck_validate_checksums -
+    leave the reader state of the model as it is (the correspondence run pairs contexts and
+    runs these calls before reads and requests to check exactly that). *)
 From ZV Require Import Base.Bytes Gen.GenConsts Format.Compint Format.Header Read.ReadSpec.
 Local Open Scope N_scope.
 
